@@ -246,31 +246,45 @@ def _run_other(ti, acts):
 
 def container_level(n_ir: int, n_mod: int) -> bool:
     """
-    pre: 0 <= n_ir < 3 and 0 <= n_mod < 3
+    pre: 0 <= n_ir < 4 and 0 <= n_mod < 4
     post: __return__
     """
-    # tables hang off IR and Module: none is lost or renamed by IR-level save/load, untouched ones byte for byte
-    a, b = pick(n_ir, 3), pick(n_mod, 3)
+    # tables hang off IR and Module (several per container, of different encoded lengths): none is lost or renamed by an IR-level
+    # save/load, freshly built ones are written exactly as the reference encoding, untouched ones byte for byte
+    a, b = pick(n_ir, 4), pick(n_mod, 4)
     with untraced():
         ir = gtirb.IR(uuid=UUID(int=1))
         m = gtirb.Module(name="m", uuid=UUID(int=2), ir=ir)
+        want_ir, want_m = {}, {}
         for i in range(a):
-            ir.aux_data["t%d" % i] = gtirb.AuxData({i: "v"}, "mapping<uint8_t,string>")
+            val = {k: "v" * (3 - i) for k in range(3 - i)}               # later tables are shorter than earlier ones
+            ir.aux_data["t%d" % i] = gtirb.AuxData(val, "mapping<uint8_t,string>")
+            want_ir["t%d" % i] = R.ref_encode(("mapping", (("uint8_t", ()), ("string", ()))), val)
         for i in range(b):
-            m.aux_data["u%d" % i] = gtirb.AuxData(gtirb.serialization.UnknownData(b"\x01\x02"), "foo")
+            if i == 1:
+                m.aux_data["u1"] = gtirb.AuxData(gtirb.serialization.UnknownData(b"\x01\x02"), "foo")
+                want_m["u1"] = b"\x01\x02"
+            else:
+                val = list(range(6 - 2 * i))
+                m.aux_data["u%d" % i] = gtirb.AuxData(val, "sequence<uint32_t>")
+                want_m["u%d" % i] = R.ref_encode(("sequence", (("uint32_t", ()),)), val)
         p1 = ir._to_protobuf()
+        ok = sorted(p1.aux_data.keys()) == sorted(want_ir) and sorted(p1.modules[0].aux_data.keys()) == sorted(want_m)
+        for k, w in want_ir.items():
+            ok = ok and bytes(p1.aux_data[k].data) == w and p1.aux_data[k].type_name == "mapping<uint8_t,string>"
+        for k, w in want_m.items():
+            ok = ok and bytes(p1.modules[0].aux_data[k].data) == w
         ir2 = gtirb.IR._from_protobuf(p1, None)
-        p2 = ir2._to_protobuf()                     # nothing read in between
-        ok = sorted(p2.aux_data.keys()) == sorted(p1.aux_data.keys()) and len(p1.aux_data) == a
-        ok = ok and sorted(p2.modules[0].aux_data.keys()) == sorted(p1.modules[0].aux_data.keys()) and len(p1.modules[0].aux_data) == b
-        for k in p1.aux_data:
-            ok = ok and p2.aux_data[k].data == p1.aux_data[k].data and p2.aux_data[k].type_name == p1.aux_data[k].type_name
-        for k in p1.modules[0].aux_data:
-            ok = ok and p2.modules[0].aux_data[k].data == b"\x01\x02" and p2.modules[0].aux_data[k].type_name == "foo"
-        # the in-memory tables of the loaded IR are distinct objects per container
+        for k in list(ir2.aux_data)[:1]:
+            ir2.aux_data[k].data                           # one table read, the others untouched
+        p2 = ir2._to_protobuf()
+        for k, w in want_ir.items():
+            ok = ok and bytes(p2.aux_data[k].data) == w
+        for k, w in want_m.items():
+            ok = ok and bytes(p2.modules[0].aux_data[k].data) == w
         ok = ok and all(ir2.aux_data[k] is not ir.aux_data[k] for k in ir.aux_data)
     if not ok:
-        return fail("IR/module level tables lost, renamed or rewritten by save/load")
+        return fail("IR/module level tables lost, renamed or not written as the encoding of their value (%d IR tables, %d module tables)" % (a, b))
     return done()
 
 
